@@ -1630,6 +1630,12 @@ class OR(LogicalBinaryOperator, ABC):
     left_evaluated: bool = field(default=False, init=False)
     right_evaluated: bool = field(default=False, init=False)
 
+    def _start_evaluation_(self) -> None:
+        super()._start_evaluation_()
+        # an abandoned evaluation may have stopped in the middle of either operand
+        self.left_evaluated = False
+        self.right_evaluated = False
+
     @lru_cache(maxsize=None)
     def _projection_(self, when_true: Optional[bool] = True) -> HashedIterable[int]:
         """
